@@ -234,6 +234,176 @@ def readers(repo):
     return out
 
 
+class _NoVenn(Exception):
+    pass
+
+
+_REGIONS = frozenset((t, r, o) for t in (0, 1) for r in (0, 1) for o in (0, 1))
+
+
+def venn_predicate(fi):
+    """Regions of the Venn diagram of the three parameters that the function's result forces to be empty (result True iff
+    all of them are empty).  Sets are subsets of the 8 regions; conversions (set(x), frozenset(x), list(x), x.keys()) are
+    the identity; predicates are conjunctions of subset tests in any spelling."""
+    params = fi.params[:3]
+    if len(params) != 3:
+        raise _NoVenn("three parameters expected")
+    base = {p: frozenset(reg for reg in _REGIONS if reg[i]) for i, p in enumerate(params)}
+
+    def setof(e, env):
+        if isinstance(e, ast.Name):
+            if e.id in env:
+                return env[e.id]
+            raise _NoVenn(f"unknown name {e.id}")
+        if isinstance(e, ast.Call):
+            fn = e.func
+            if isinstance(fn, ast.Name) and fn.id in ("set", "frozenset", "list", "tuple", "sorted") and len(e.args) == 1 and not e.keywords:
+                return setof(e.args[0], env)
+            if isinstance(fn, ast.Name) and fn.id in ("set", "frozenset") and not e.args:
+                return frozenset()
+            if isinstance(fn, ast.Attribute) and not e.keywords:
+                recv = setof(fn.value, env)
+                if fn.attr in ("keys", "copy") and not e.args:
+                    return recv
+                args = [setof(a, env) for a in e.args]
+                if fn.attr == "union":
+                    return recv.union(*args)
+                if fn.attr == "intersection":
+                    return recv.intersection(*args)
+                if fn.attr == "difference":
+                    return recv.difference(*args)
+                if fn.attr == "symmetric_difference" and len(args) == 1:
+                    return recv ^ args[0]
+            raise _NoVenn(f"call {ast.unparse(e)[:40]}")
+        if isinstance(e, ast.BinOp):
+            l, r = setof(e.left, env), setof(e.right, env)
+            if isinstance(e.op, ast.BitOr):
+                return l | r
+            if isinstance(e.op, ast.BitAnd):
+                return l & r
+            if isinstance(e.op, ast.Sub):
+                return l - r
+            if isinstance(e.op, ast.BitXor):
+                return l ^ r
+            raise _NoVenn(f"operator in {ast.unparse(e)[:40]}")
+        if isinstance(e, ast.IfExp):
+            a, b = setof(e.body, env), setof(e.orelse, env)
+            if a == b:
+                return a
+            raise _NoVenn("conditional set value")
+        if isinstance(e, (ast.Set, ast.List, ast.Tuple)) and not e.elts:
+            return frozenset()
+        raise _NoVenn(f"set expression {ast.unparse(e)[:40]}")
+
+    def pred(e, env):
+        """regions forced empty"""
+        if isinstance(e, ast.BoolOp) and isinstance(e.op, ast.And):
+            out = frozenset()
+            for v in e.values:
+                out |= pred(v, env)
+            return out
+        if isinstance(e, ast.Compare):
+            out = frozenset()
+            left = e.left
+            for op, right in zip(e.ops, e.comparators):
+                if isinstance(op, ast.Eq) and isinstance(right, ast.Constant) and right.value == 0 and isinstance(left, ast.Call) and \
+                        isinstance(left.func, ast.Name) and left.func.id == "len" and len(left.args) == 1:
+                    out |= setof(left.args[0], env)
+                else:
+                    l, r = setof(left, env), setof(right, env)
+                    if isinstance(op, ast.LtE):
+                        out |= l - r
+                    elif isinstance(op, ast.GtE):
+                        out |= r - l
+                    elif isinstance(op, ast.Eq):
+                        out |= l ^ r
+                    else:
+                        raise _NoVenn(f"comparison in {ast.unparse(e)[:40]}")
+                left = right
+            return out
+        if isinstance(e, ast.UnaryOp) and isinstance(e.op, ast.Not):
+            return setof(e.operand, env)                      # `not S`: S is empty
+        if isinstance(e, ast.Call):
+            fn = e.func
+            if isinstance(fn, ast.Attribute) and len(e.args) == 1 and not e.keywords:
+                if fn.attr == "issubset":
+                    return setof(fn.value, env) - setof(e.args[0], env)
+                if fn.attr == "issuperset":
+                    return setof(e.args[0], env) - setof(fn.value, env)
+                if fn.attr == "isdisjoint":
+                    return setof(fn.value, env) & setof(e.args[0], env)
+            if isinstance(fn, ast.Name) and fn.id == "all" and len(e.args) == 1 and isinstance(e.args[0], (ast.GeneratorExp, ast.ListComp)):
+                c = e.args[0]
+                if len(c.generators) == 1 and not c.generators[0].ifs and isinstance(c.generators[0].target, ast.Name) and \
+                        isinstance(c.elt, ast.Compare) and len(c.elt.ops) == 1 and isinstance(c.elt.ops[0], ast.In) and \
+                        isinstance(c.elt.left, ast.Name) and c.elt.left.id == c.generators[0].target.id:
+                    return setof(c.generators[0].iter, env) - setof(c.elt.comparators[0], env)
+            raise _NoVenn(f"call {ast.unparse(e)[:40]}")
+        if isinstance(e, ast.Name) and e.id in env and isinstance(env[e.id], tuple):
+            return env[e.id][1]
+        raise _NoVenn(f"predicate {ast.unparse(e)[:40]}")
+
+    def block(stmts, env):
+        for st in stmts:
+            if isinstance(st, ast.Expr) and isinstance(st.value, ast.Constant):
+                continue
+            if isinstance(st, ast.Assign) and len(st.targets) == 1 and isinstance(st.targets[0], ast.Name):
+                try:
+                    env[st.targets[0].id] = setof(st.value, env)
+                except _NoVenn:
+                    env[st.targets[0].id] = ("pred", pred(st.value, env))
+                continue
+            if isinstance(st, ast.AugAssign) and isinstance(st.target, ast.Name) and isinstance(st.op, (ast.BitOr, ast.BitAnd, ast.Sub, ast.BitXor)):
+                # value of the name in this call (that an in-place update may also reach a default argument is the other rule's business)
+                env[st.target.id] = setof(ast.BinOp(left=ast.Name(id=st.target.id, ctx=ast.Load()), op=st.op, right=st.value), env)
+                continue
+            if isinstance(st, ast.Expr) and isinstance(st.value, ast.Call) and isinstance(st.value.func, ast.Attribute) and \
+                    isinstance(st.value.func.value, ast.Name) and st.value.func.attr in ("update", "intersection_update", "difference_update") and \
+                    not st.value.keywords:
+                nm = st.value.func.value.id
+                cur = setof(st.value.func.value, env)
+                args = [setof(a, env) for a in st.value.args]
+                env[nm] = {"update": cur.union, "intersection_update": cur.intersection, "difference_update": cur.difference}[st.value.func.attr](*args)
+                continue
+            if isinstance(st, ast.If):
+                # conversions under a type test (`if not isinstance(x, set): x = set(x)`): both branches must agree
+                if any(isinstance(x, ast.Return) for x in ast.walk(st)):
+                    # `if not P: return False` ; ...   /  `if P: return Q` `return False`
+                    if len(st.body) == 1 and isinstance(st.body[0], ast.Return) and isinstance(st.body[0].value, ast.Constant) and \
+                            st.body[0].value.value is False and not st.orelse and isinstance(st.test, ast.UnaryOp) and isinstance(st.test.op, ast.Not):
+                        rest = block(stmts[stmts.index(st) + 1:], dict(env))
+                        return pred(st.test.operand, env) | rest
+                    if len(st.body) >= 1 and not st.orelse:
+                        rest_stmts = stmts[stmts.index(st) + 1:]
+                        if len(rest_stmts) == 1 and isinstance(rest_stmts[0], ast.Return) and isinstance(rest_stmts[0].value, ast.Constant) and \
+                                rest_stmts[0].value.value is False:
+                            return pred(st.test, env) | block(st.body, dict(env))
+                    raise _NoVenn("conditional return")
+                e1, e2 = dict(env), dict(env)
+                block_noret(st.body, e1)
+                block_noret(st.orelse, e2)
+                if e1 != e2:
+                    raise _NoVenn("branches bind different sets")
+                env.clear()
+                env.update(e1)
+                continue
+            if isinstance(st, ast.Return) and st.value is not None:
+                return pred(st.value, env)
+            raise _NoVenn(f"statement {type(st).__name__}")
+        raise _NoVenn("no return")
+
+    def block_noret(stmts, env):
+        for st in stmts:
+            if isinstance(st, ast.Assign) and len(st.targets) == 1 and isinstance(st.targets[0], ast.Name):
+                env[st.targets[0].id] = setof(st.value, env)
+            elif isinstance(st, ast.Pass):
+                pass
+            else:
+                raise _NoVenn(f"statement {type(st).__name__} in a conversion branch")
+
+    return set(block(list(fi.node.body), dict(base)))
+
+
 def run(repo, rep, tier):
     rep.extra["explanation"] = (
         "Static path analysis of the 19 fromJsonFragment readers, the 19 ed() constructors and Factory.fromJson: "
@@ -294,17 +464,26 @@ def run(repo, rep, tier):
     for fi, p, n, what in helper_hits:
         rep.finding("R15.3", fi, n, f"{what} modifies the mutable default `{p}` of {fi.name}: key sets admitted by one gate leak into every "
                     f"later gate without optional keys, so documents with extra keys are accepted", stmt=f"mutable default {p} written")
-    # hasKeys must end in the two-sided subset test (closed key set): required <= test <= required | optional
+    # hasKeys must decide the closed key set  required <= test <= required | optional.  Decided by set algebra over the 8 Venn
+    # regions of (test, required, optional): the returned predicate is evaluated to the set of regions it forces to be empty.
     hk = um.functions["hasKeys"]
-    rets = [n.value for n in ast.walk(hk.node) if isinstance(n, ast.Return) and n.value is not None]
-    calls = {ast.unparse(c.func).split(".")[-1] for r_ in rets for c in ast.walk(r_) if isinstance(c, ast.Call)} | {
-        type(o).__name__ for r_ in rets for c in ast.walk(r_) if isinstance(c, ast.Compare) for o in c.ops}
-    closed = ("issubset" in calls or "LtE" in calls or "issuperset" in calls or "GtE" in calls) and any(
-        isinstance(r_, ast.BoolOp) and isinstance(r_.op, ast.And) for r_ in rets)
-    r3.ob(closed, "hasKeys returns a two-sided subset test")
+    try:
+        forced = venn_predicate(hk)
+    except _NoVenn as e:
+        raise AnalysisError(f"hasKeys: the key-set test is written in a form the set-algebra evaluator does not follow ({e})")
+    want = {(0, 1, 0), (0, 1, 1), (1, 0, 0)}
+    closed = forced == want
+    r3.ob(closed, f"hasKeys accepts exactly required <= test <= required|optional (regions forced empty: {sorted(forced)})")
     if not closed:
-        rep.finding("R15.3", hk, hk.node, "hasKeys does not return a conjunction of two subset tests (required within test, test within "
-                    "required+optional): missing or extra keys are not both rejected", stmt="hasKeys two-sided test")
+        miss = []
+        if not {(0, 1, 0), (0, 1, 1)} <= forced:
+            miss.append("a missing required key is accepted")
+        if (1, 0, 0) not in forced:
+            miss.append("a key that is neither required nor optional is accepted")
+        if forced - want:
+            miss.append(f"valid documents are rejected (regions {sorted(forced - want)} of (test, required, optional) must be empty)")
+        rep.finding("R15.3", hk, hk.node, "hasKeys does not decide `required <= test <= required | optional`: " + "; ".join(miss),
+                    stmt="hasKeys two-sided test")
 
 
 def rule_stale(rep, r1, f, g):
